@@ -34,6 +34,20 @@ def prop_case(draw, tier="quick"):
     planes = []
     for i in range(nplanes):
         amp, opd, mask = draw(gen.aperture(shape, wl, min_samples=2 if i else 3))
+        rel = draw(st.sampled_from(["free", "free", "same", "shift_rows", "shift_cols", "shift_both"])) if i else "free"
+        if rel != "free":
+            # a later plane whose support is the FIRST plane's support, as it is or displaced along one axis / both
+            # axes (a pupil followed by an equal stop that is sheared): same bounding-box shape, related centres
+            m0 = np.asarray(planes[0]["mask"] if planes[0]["mask"] is not None else planes[0]["amp"]) != 0
+            b = gen.bbox(m0)
+            free_r = [d for d in range(-b[0], shape[0] - b[1]) if d != 0]
+            free_c = [d for d in range(-b[2], shape[1] - b[3]) if d != 0]
+            dr = draw(st.sampled_from(free_r)) if rel in ("shift_rows", "shift_both") and free_r else 0
+            dc = draw(st.sampled_from(free_c)) if rel in ("shift_cols", "shift_both") and free_c else 0
+            moved = np.roll(np.roll(m0, dr, axis=0), dc, axis=1)          # (no wrap-around: the shift stays inside the frame)
+            mask = moved.astype(int)
+            amp = np.where(moved, 0.4 + np.abs(amp), 0.0)
+            opd = np.where(moved, opd, 0.0)
         mform = draw(st.sampled_from(["int", "int", "bool", "float"]))
         if mform == "bool":
             mask = mask.astype(bool)
@@ -42,7 +56,7 @@ def prop_case(draw, tier="quick"):
         if i == 0:
             amp = amp * amp_scale
         planes.append({"amp": amp, "opd": opd, "mask": mask if draw(st.booleans()) else None,
-                       "f": samp["z"] if i == nplanes - 1 else draw(gen.finite(0.5, 50.0))})
+                       "f": samp["z"] if i == nplanes - 1 else draw(gen.finite(0.5, 50.0)), "rel": rel})
     os_ = samp["oversample"]
     shape_kind = draw(st.sampled_from(["pair", "pair", "int", "none"]))
     if shape_kind == "none":
@@ -172,7 +186,8 @@ def dft(case, ctx):
             f"window_periods:{case['period']}" if case.get("period") else None,
             "pupil_larger_than_window" if shape[0] > win[0] or shape[1] > win[1] else None,
             "nonsquare_in" if shape[0] != shape[1] else None, "shape:none" if case["out_shape"] is None else None,
-            "amp_scale:%.0e" % float(np.max(np.abs(case["planes"][0]["amp"]))))
+            "amp_scale:%.0e" % float(np.max(np.abs(case["planes"][0]["amp"]))),
+            *sorted({"plane_rel:" + pl_.get("rel", "free") for pl_ in case["planes"][1:]}))
     nz = int(np.count_nonzero(model))
     ctx.nontrivial_if(nz >= 3 and not point_symmetric(model))
     kw = {}
